@@ -136,6 +136,8 @@ def make_table_forecaster():
             f = self._n_epoch - (self.n - F) + 1
             off = float(self.table[f - 1]) if 1 <= f <= F and len(self._y) == self._n_epoch \
                 else 0.001 * self._n_epoch
+            if off == 0.0:
+                off = float("nan")       # table entry 0: the forecast (and with it the fold's score) is undefined
             return pd.Series([1000.0 + int(t) - self.origin + off for t in idx], index=idx)
 
     return TableForecaster
